@@ -42,9 +42,9 @@ DN(i, p, U, u, k) == DNSpan(i, p, U, u, k, SpanDef(p, U, NumCtrl(p, U), u))
 
 \* all values on the active span: <<N_{span-p}, ..., N_{span}>>
 ActiveN(p, U, u) == LET sp == SpanDef(p, U, NumCtrl(p, U), u) IN
-  [j \in 1..(p + 1) |-> NSpan(sp - p + j - 1, p, U, u, sp)]
+  TLCEval([j \in 1..(p + 1) |-> NSpan(sp - p + j - 1, p, U, u, sp)])
 ActiveDN(p, U, u, k) == LET sp == SpanDef(p, U, NumCtrl(p, U), u) IN
-  [j \in 1..(p + 1) |-> DNSpan(sp - p + j - 1, p, U, u, k, sp)]
+  TLCEval([j \in 1..(p + 1) |-> DNSpan(sp - p + j - 1, p, U, u, k, sp)])
 
 \* --- transcription of helpers.basis_function (A2.2) ----------------------
 \* state: Nv (0-based function on 0..p), left, right; j outer loop, r inner loop
@@ -64,7 +64,7 @@ BFOuter(p, U, span, u, j, Nv, lr) ==
 BasisFuns(p, U, span, u) ==
   LET z == [x \in 0..p |-> Zero]
       Nv == BFOuter(p, U, span, u, 1, [x \in 0..p |-> One], [left |-> z, right |-> z])
-  IN  [j \in 1..(p + 1) |-> Nv[j - 1]]
+  IN  TLCEval([j \in 1..(p + 1) |-> Nv[j - 1]])
 AllBasisFuns(p, U, span, u) ==   \* [j][i] for 0<=j<=i<=p  -> sequence over i of BasisFuns(i)
-  [i \in 1..(p + 1) |-> BasisFuns(i - 1, U, span, u)]
+  TLCEval([i \in 1..(p + 1) |-> BasisFuns(i - 1, U, span, u)])
 =============================================================================
